@@ -2,6 +2,7 @@
 
 from typing import Optional
 
+import torch
 from linear_operator import to_linear_operator
 from linear_operator.operators import KroneckerProductLinearOperator
 
@@ -50,8 +51,10 @@ class MultitaskKernel(Kernel):
         if last_dim_is_batch:
             raise RuntimeError("MultitaskKernel does not accept the last_dim_is_batch argument.")
         covar_i = self.task_covar_module.covar_matrix
-        if len(x1.shape[:-2]):
-            covar_i = covar_i.repeat(*x1.shape[:-2], 1, 1)
+        # Match the batch shape of the data covariance (the task covariance may already carry the kernel's batch shape)
+        batch_shape = torch.broadcast_shapes(x1.shape[:-2], x2.shape[:-2], covar_i.shape[:-2])
+        if covar_i.shape[:-2] != batch_shape:
+            covar_i = covar_i.expand(*batch_shape, *covar_i.shape[-2:])
         covar_x = to_linear_operator(self.data_covar_module.forward(x1, x2, **params))
         res = KroneckerProductLinearOperator(covar_x, covar_i)
         return res.diagonal(dim1=-1, dim2=-2) if diag else res
